@@ -244,6 +244,58 @@ static void pedersen_cases(const Grp &G, size_t nmax, const std::vector<size_t> 
 	}
 }
 
+
+// ---- cut-and-choose stack equality (VTMF encoding), one iteration per proof (TMCG_SecurityLevel = 1) so that every
+//      iteration is a record: prover round (coins -> commitment, response) and verifier round (message -> verdict) -------------
+static std::string tok_vst(const TMCG_Stack<VTMF_Card> &s) { std::string r; for (size_t i = 0; i < s.size(); i++) { if (i) r += ";"; r += hx(s[i].c_1) + "," + hx(s[i].c_2); } return r.empty() ? "_" : r; }
+static std::string tok_vsec(const TMCG_StackSecret<VTMF_CardSecret> &s) { std::string r; for (size_t i = 0; i < s.size(); i++) { if (i) r += ";"; r += hx((unsigned long)s[i].first) + "," + hx(s[i].second.r); } return r.empty() ? "_" : r; }
+static std::string stack_hash(const TMCG_Stack<VTMF_Card> &s3) { std::ostringstream ost; ost << s3 << std::endl; Z f; bool was = hash_logging(); hash_logging() = false; tmcg_mpz_shash(f, ost.str()); hash_logging() = was; return f.h(); }
+static bool secret_sane(const TMCG_StackSecret<VTMF_CardSecret> &ss, size_t n, mpz_srcptr q) {
+	if (ss.size() != n) return false; std::vector<bool> seen(n, false);
+	for (size_t i = 0; i < n; i++) { if (ss[i].first >= n || seen[ss[i].first]) return false; seen[ss[i].first] = true; if (mpz_sgn(ss[i].second.r) < 0 || mpz_cmp(ss[i].second.r, q) >= 0) return false; }
+	return true;
+}
+static void cutchoose_cases(V *vp, V *vv, size_t n, bool cyclic, unsigned reps) {
+	SchindelhauerTMCG tmcg(1, 2, 6);
+	TMCG_Stack<VTMF_Card> s, s2;
+	for (size_t i = 0; i < n; i++) { VTMF_Card c; tmcg.TMCG_CreateOpenCard(c, vp, gen().below(32)); if (gen().coin()) { VTMF_Card cc; VTMF_CardSecret cs; tmcg.TMCG_CreateCardSecret(cs, vp); tmcg.TMCG_MaskCard(c, cc, cs, vp); c = cc; } s.push(c); }
+	TMCG_StackSecret<VTMF_CardSecret> ss; tmcg.TMCG_CreateStackSecret(ss, cyclic, n, vp); tmcg.TMCG_MixStack(s, s2, ss, vp);
+	auto head = [&](Rec &r) -> Rec & { return r.z(vp->p).z(vp->q).z(vp->g).z(vp->h); };
+	for (unsigned rep = 0; rep < reps; rep++) {
+		unsigned bit = gen().below(2);
+		Z com; TMCG_StackSecret<VTMF_CardSecret> resp; std::string coins;
+		{ Capture cap; std::stringstream in("1\n" + std::to_string(bit) + "\n"), out;
+		  tmcg.TMCG_ProveStackEquality(s, s2, ss, cyclic, vp, in, out);
+		  coins = xb(coin_log().data(), coin_log().size());
+		  out >> com.v; out >> resp; }
+		auto table = [&](const TMCG_StackSecret<VTMF_CardSecret> &r, unsigned b) -> std::string {
+			if (!secret_sane(r, n, vp->q)) return "_";
+			TMCG_Stack<VTMF_Card> s4; tmcg.TMCG_MixStack(b ? s2 : s, s4, r, vp, false); return tok_vst(s4) + "=" + stack_hash(s4); };
+		if (!dynamic_cast<BarnettSmartVTMF_dlog_GroupQR *>(vp))   // GroupQR draws its masking values differently (srandomb of E_size bits): not modelled
+		{ Rec r("ccp"); head(r).d(cyclic).t(tok_vst(s2)).t(tok_vsec(ss)).t(coins).d(bit).t(table(resp, bit)).t(com.h() + "/" + tok_vsec(resp)); }
+		auto verify = [&](mpz_srcptr c, const TMCG_StackSecret<VTMF_CardSecret> &r, unsigned b, bool cyc) {
+			std::ostringstream msg; msg << c << std::endl << r << std::endl;
+			script_bytes(std::vector<unsigned char>(1, (unsigned char)b));
+			std::stringstream in(msg.str()), out; int ret;
+			try { ret = tmcg.TMCG_VerifyStackEquality(s, s2, cyc, vv, in, out) ? 1 : 0; } catch (std::exception &) { ret = -1; }
+			coin_script().clear();
+			Rec rc("ccv"); head(rc).t(tok_vst(s)).t(tok_vst(s2)).d(cyc).d(b).z(c).t(tok_vsec(r)).t(table(r, b)).t(ret == 1 ? "1" : ret == 0 ? "0" : "T");
+			return ret; };
+		int ret = verify(com, resp, bit, cyclic);
+		if (ret != 1) propfail(cyclic ? "cutchoose-cyclic-rejected" : "cutchoose-rejected", "TMCG_VerifyStackEquality(VTMF) rejects an honest iteration: n=" + std::to_string(n) + " bit=" + std::to_string(bit) + " " + gdesc(vp));
+		// wrong messages (model comparison only)
+		{ Z c2(com); mpz_add_ui(c2, c2, 1); verify(c2, resp, bit, cyclic); }
+		verify(com, resp, 1 - bit, cyclic);
+		if (!cyclic) verify(com, resp, bit, true);                            // a general permutation checked as a rotation
+		{ TMCG_StackSecret<VTMF_CardSecret> r2 = resp; size_t i = gen().below(n); mpz_add(r2[i].second.r, r2[i].second.r, vp->q); verify(com, r2, bit, cyclic); }
+		{ TMCG_StackSecret<VTMF_CardSecret> r2 = resp; size_t i = gen().below(n); mpz_sub(r2[i].second.r, r2[i].second.r, vp->q); verify(com, r2, bit, cyclic); }
+		{ TMCG_StackSecret<VTMF_CardSecret> r2 = resp; size_t i = gen().below(n); mpz_add_ui(r2[i].second.r, r2[i].second.r, 1); mpz_mod(r2[i].second.r, r2[i].second.r, vp->q); verify(com, r2, bit, cyclic); }
+		if (n > 1) { TMCG_StackSecret<VTMF_CardSecret> r2; for (size_t i = 0; i + 1 < n; i++) r2.push(resp[i].first, resp[i].second); verify(com, r2, bit, cyclic); }   // wrong size (and, usually, no bijection)
+		if (n > 1) { TMCG_StackSecret<VTMF_CardSecret> r2 = resp; std::swap(r2[0].first, r2[n - 1].first); verify(com, r2, bit, cyclic); }
+		if (n > 1) { TMCG_StackSecret<VTMF_CardSecret> r2 = resp; r2[0].first = r2[1].first; verify(com, r2, bit, cyclic); }               // not a bijection
+	}
+}
+
 static void run_group(const Grp &G, unsigned k, unsigned n) {
 	std::vector<V *> pl;
 	for (unsigned i = 0; i < k; i++) { V *v = mk(G); v->KeyGenerationProtocol_GenerateKey(); pl.push_back(v); }
@@ -257,6 +309,7 @@ static void run_group(const Grp &G, unsigned k, unsigned n) {
 		keyi_cases(v, n); cp_cases(v, n); or_cases(v, n); mask_cases(v, others, n);
 		if (i + 1 < k) continue;
 	}
+	for (size_t cn : { (size_t)1, (size_t)2, (size_t)3, (size_t)(4 + gen().below(4)) }) { cutchoose_cases(pl[0], pl[1], cn, false, n); if (cn >= 2) cutchoose_cases(pl[1], pl[0], cn, true, n); }
 	// a key added after Finalize: h changes but its table is stale -> the table path throws (records only)
 	if (!G.qr) { V *v = pl[0]; V *e = mk(G); e->KeyGenerationProtocol_GenerateKey(); std::stringstream s; e->KeyGenerationProtocol_PublishKey(s);
 		if (mpz_cmp(e->h_i, v->h_i) && v->KeyGenerationProtocol_UpdateKey(s)) {
